@@ -86,6 +86,41 @@ pub fn base_cfg(rng: &mut Rng, s: &mut Script, allow_odd_ctors: bool) {
         5 | 6 => 1,
         _ => 2,
     });
+    if allow_odd_ctors && rng.chance(1, 12) {
+        add_setters(rng, s);
+    }
+}
+
+pub fn clear_setters(s: &mut Script) {
+    for k in ["setter", "setter2", "setter_before_reset"] {
+        if s.c(k) != 0 {
+            s.set(k, 0);
+        }
+    }
+}
+
+/// Settings changed through the public setters before the stream starts.
+pub fn add_setters(rng: &mut Rng, s: &mut Script) {
+    let lvl = |rng: &mut Rng| -> i64 {
+        match rng.below(6) {
+            0 => 0,
+            1 | 2 => 1,
+            3 => rng.range(11, 255) as i64,
+            _ => rng.range(2, 10) as i64,
+        }
+    };
+    s.set("setter", rng.range(1, 3) as i64);
+    s.set("setter_level", lvl(rng));
+    s.set("setter_zlib", rng.chance(2, 3) as i64);
+    if rng.chance(1, 4) {
+        s.set("setter2", rng.range(1, 3) as i64);
+        s.set("setter2_level", lvl(rng));
+        s.set("setter2_zlib", rng.chance(2, 3) as i64);
+    }
+    if rng.chance(1, 3) {
+        s.set("pre_reset", rng.range(1, 3000) as i64);
+        s.set("setter_before_reset", rng.chance(1, 2) as i64);
+    }
 }
 
 const ALL_TDEFL: [i64; 8] = [1, 2, 3, 5, 6, 7, 2, 3];
@@ -95,10 +130,21 @@ const ALL_TDEFL: [i64; 8] = [1, 2, 3, 5, 6, 7, 2, 3];
 /// output grants around the size of that block.
 pub fn boundary_family(rng: &mut Rng, s: &mut Script) -> Vec<u8> {
     const B: usize = 31 * 1024 + 1;
+    clear_setters(s);
     let k = rng.range(1, 3);
+    let chains = rng.chance(1, 3);
     let n = B * k + rng.pick(&[0usize, 0, 0, 1, 5, 300]) - rng.pick(&[0usize, 0, 1]);
-    let plain = rng.bytes(n);
-    if rng.chance(1, 3) {
+    let tail = rng.pick(&[40usize, 300, 2000, 33000]);
+    let plain = if chains { gen::chain_boundary_plain(rng, k, tail) } else { rng.bytes(n) };
+    let n = plain.len();
+    if chains {
+        // lazy parsing with a match pending when the compressor closes the block on its own
+        s.set("level", rng.range(4, 10) as i64);
+        s.set("strategy", rng.pick(&[0i64, 0, 4]));
+        if s.c("ctor") != 0 && s.c("ctor") != 1 {
+            s.set("ctor", 0);
+        }
+    } else if rng.chance(1, 3) {
         s.set("level", 0);
     } else if rng.chance(1, 3) {
         s.set("strategy", 2);
@@ -166,6 +212,7 @@ pub fn many_flush_family(rng: &mut Rng, s: &mut Script) -> Vec<u8> {
 
 /// Dictionary-wrap runs (RLE and friends) or nearly incompressible data with a low match density, > 32 KiB.
 pub fn wrap_or_sparse_family(rng: &mut Rng, s: &mut Script) {
+    clear_setters(s);
     let n = rng.range(33_000, 110_000);
     let plain;
     if rng.chance(1, 2) {
@@ -188,7 +235,35 @@ pub fn wrap_or_sparse_family(rng: &mut Rng, s: &mut Script) {
     s.set_blob("plain", plain);
 }
 
-pub fn gen_c02(rng: &mut Rng, _i: u64, tier: Tier) -> Script {
+pub const PHASE_SCRIPTS: u64 = 32;
+
+/// Deterministic family (run indices 0..PHASE_SCRIPTS): all 4096 phases between the instant the LZ code
+/// buffer fills and the compressor's look-ahead rounds, 128 per script (see pipe::exec).
+pub fn phase_sweep_script(rng: &mut Rng, i: u64, prop: &str) -> Script {
+    let mut s = Script::new(prop, "pipe");
+    s.set("ctor", 0);
+    s.set("zlib", 1);
+    // level 1 is the fast path with its 4096-byte rounds; a few scripts use the hash-chain path
+    s.set("level", if i % 8 == 7 { rng.pick(&[2i64, 6, 9]) } else { 1 });
+    s.set("strategy", 0);
+    s.set("window_bits", 15);
+    s.set("driver", rng.pick(&[0i64, 0, 2]));
+    s.set("clauses", PC_C02 | PC_C16);
+    s.set("phase_from", (i * 128) as i64);
+    s.set("phase_count", 128);
+    s.set("phase_byte", rng.below(256) as i64);
+    let n = rng.range(62_000, 70_000);
+    let grant = rng.pick(&[64i64, 64, 1, 4096, 200_000]);
+    s.ops = vec![vec![(n + 5000) as i64, grant, 0]];
+    s.set("tail_out", rng.pick(&[64i64, 4096, 100_000]));
+    s.set_blob("plain", rng.bytes(n));
+    s
+}
+
+pub fn gen_c02(rng: &mut Rng, i: u64, tier: Tier) -> Script {
+    if i < PHASE_SCRIPTS {
+        return phase_sweep_script(rng, i, "C02");
+    }
     let mut s = Script::new("C02", "pipe");
     base_cfg(rng, &mut s, true);
     s.set("clauses", PC_C02 | PC_C16);
@@ -217,6 +292,7 @@ pub fn gen_c02(rng: &mut Rng, _i: u64, tier: Tier) -> Script {
     };
     if heavy {
         // lazy parsing, buffer sink smaller than a flushed block: early return from compress_normal
+        clear_setters(&mut s);
         s.set("level", rng.range(4, 10) as i64);
         s.set("strategy", rng.pick(&[0i64, 0, 0, 1, 4]));
         s.set("driver", rng.pick(&[0i64, 0, 2]));
@@ -323,6 +399,7 @@ pub fn gen_c10(rng: &mut Rng, _i: u64, tier: Tier) -> Script {
         let mut p = x.clone();
         p.extend_from_slice(&x);
         s.set("clauses", PC_C10 | PC_REDUNDANCY);
+        clear_setters(&mut s);
         s.set("level", rng.range(1, 10) as i64);
         s.set("strategy", rng.pick(&[0i64, 0, 1, 4]));
         s.set("window_bits", 15);
@@ -336,10 +413,16 @@ pub fn gen_c10(rng: &mut Rng, _i: u64, tier: Tier) -> Script {
         wrap_or_sparse_family(rng, &mut s);
         return s;
     }
+    if rng.chance(1, 40) {
+        let plain = boundary_family(rng, &mut s);
+        s.set_blob("plain", plain);
+        return s;
+    }
     let n = gen::plain_size(rng, if tier == Tier::Thorough { 12 } else { 6 });
     let plain = gen::plaintext(rng, n);
     if rng.chance(1, 8) {
         // one-shot emitters
+        clear_setters(&mut s);
         s.set("driver", 3);
         s.set("ctor", 1);
         s.set("strategy", 0);
@@ -415,6 +498,15 @@ pub fn gen_c11(rng: &mut Rng, _i: u64, _tier: Tier) -> Script {
     s.set("clauses", PC_C11);
     if rng.chance(1, 4) {
         s.set("pre_reset", rng.range(1, 3000) as i64);
+    }
+    if rng.chance(1, 4) {
+        // settings changed through the setters before the stream starts: the window given at creation still
+        // bounds what the header may declare and what the matches may reach
+        add_setters(rng, &mut s);
+        if rng.chance(3, 4) {
+            s.set("setter_zlib", 1);
+            s.set("setter2_zlib", 1);
+        }
     }
     let plain = if rng.chance(4, 5) { far_repeat_plain(rng, w) } else { { let pn = rng.range(0, 4000); gen::plaintext(rng, pn) } };
     let n = plain.len();
